@@ -29,6 +29,39 @@ rollback() raise; a stale ``_deleted`` flag survived the rollback of
 INSERT+DELETE and made the next INSERT report the "deleted" state.  Reverting
 any of those commits makes the corresponding signature reappear.
 
+Additional worlds (same oracle): ``falsy`` / ``falsylen`` -- mapped classes
+defining ``__bool__`` / only ``__len__`` with a falsy and a truthy row plus a
+falsy new object (code that truth-tests an instance instead of comparing with
+None); ``single_noaf`` -- Session(autoflush=False), and ``begin_nested()``
+inside ``no_autoflush`` in every world (it must flush all the same);
+``casc_su`` / ``casc_all`` / ``casc_do`` -- a parent and a child under the
+cascade presets "save-update", "all", "all, delete-orphan" (append / remove /
+add / expire / refresh / expunge / delete / flush / commit / rollback /
+savepoint, autoflush off), checked with (1) and (2) only: every transition a
+cascade causes must be a documented edge announced by exactly its event.
+The cascade worlds found two more defects: the expunge cascade fires events
+for (and would detach) objects that are not in the session, and the delete
+cascade puts an object that is already in the deleted state back into
+identity_map / Session.deleted (proposed_fixes/c35_expunge_cascade_*.diff,
+c35_delete_cascade_*.diff).
+
+Mutations caught in the additional worlds:
+ * session.py `_update_impl`: `if obj is None` -> `if not obj` (truth-tests
+   the instance) -> "add: object detached -> detached, documented: persistent",
+   "rollback: object deleted -> persistent but not in Session.identity_map"
+ * identity.py `WeakInstanceDict.get`: `if o is None` -> `if not o` ->
+   "query: unexpected new object ..." (second instance for a falsy row)
+ * session.py `_conditional_expire`: `state._detach(self)` -> `state._detach()`
+   (no event for a pending child expunged by expire/refresh of its parent) ->
+   "expire: object pending: state changed pending -> transient without an event"
+ * session.py `_flush`: pending orphan evicted without `_expunge_states`
+   -> "flush: object pending: state changed pending -> transient without an event"
+ * state.py `_detach_states`: pending_to_transient suppressed when
+   to_transient -> "rollback: ... pending -> transient without an event"
+ * session.py `_take_snapshot`: `self.session.flush()` ->
+   `self.session._autoflush()` -> "begin_nested: object pending -> pending,
+   documented: persistent" (autoflush=False world and no_autoflush variant)
+
 Mutations caught (each in a private copy, `VF_REPO=/tmp/wt-orm1 ./check C35`):
  * session.py `_register_persistent`: pending_to_persistent dispatched for
    `states.difference(self._new)` (wrong branch) -> "state changed pending ->
@@ -62,7 +95,9 @@ META = dict(
     technique="explicit-state BFS over Session operation histories by replay on the real Session, reference model "
     "(documented lifecycle machine + nested-transaction scopes) in lock-step, canonical-state dedupe",
     design_ref="DESIGN.md §5 C35",
-    level_text="All histories up to the stated depth over add/delete/expunge/set/flush/commit/rollback/close/"
+    level_text="(Plus: the same alphabet on mapped classes whose instances are falsy, a Session(autoflush=False) world, begin_nested() "
+    "inside no_autoflush, and three Parent/Child cascade worlds checked with the model-free parts (1)+(2) of the oracle.) "
+    "All histories up to the stated depth over add/delete/expunge/set/flush/commit/rollback/close/"
     "begin_nested/savepoint rollback+release/query/merge/make_transient/make_transient_to_detached on 1-2 "
     "constructed objects (incl. two instances with the same primary key and a row pre-existing in the database) "
     "plus objects born from loads/merges, for expire_on_commit on and off. After every operation every object's "
@@ -81,8 +116,11 @@ META = dict(
         "transient objects are (re)initialised with explicit attribute values before add()",
     ],
     bounds=dict(
-        quick="worlds single/twin/seeded x expire_on_commit {True,False}: all histories of depth <= 6 (single), <= 4 (twin), <= 5 (seeded) with canonical-state dedupe, savepoint depth <= 2, 1 born object",
-        thorough="single: depth <= 7 (2 born objects); twin: depth <= 5 (1 born); seeded: depth <= 5 (2 born); savepoint depth <= 2",
+        quick="worlds single/twin/seeded x expire_on_commit {True,False}: all histories of depth <= 6 (single), <= 4 (twin), <= 5 (seeded) "
+        "with canonical-state dedupe, savepoint depth <= 2, 1 born object; single with Session(autoflush=False): <= 5; falsy-instance "
+        "worlds (__bool__ / __len__ classes, 2 born objects): <= 4; cascade worlds: save-update <= 5, all <= 6, all+delete-orphan <= 6",
+        thorough="single: depth <= 7 (2 born objects); twin: <= 5; seeded: <= 5 (2 born); autoflush=False: <= 6; falsy worlds: <= 5; "
+        "cascade worlds: <= 6 / 7 / 7, expire_on_commit both ways; savepoint depth <= 2",
     ),
 )
 
@@ -109,7 +147,7 @@ CASCADE_WORLDS = dict(
     casc_do=("ParentDO", "ChildDO", "all, delete-orphan"),
 )
 DEPTH = dict(
-    quick=dict(single=6, twin=4, seeded=5, single_noaf=5, falsy=5, falsylen=4, casc_su=5, casc_all=6, casc_do=6),
+    quick=dict(single=6, twin=4, seeded=5, single_noaf=5, falsy=4, falsylen=4, casc_su=5, casc_all=6, casc_do=6),
     thorough=dict(single=7, twin=5, seeded=5, single_noaf=6, falsy=5, falsylen=5, casc_su=6, casc_all=7, casc_do=7),
 )
 BORN = dict(
@@ -261,7 +299,7 @@ def membership_problem(w, name, state):
 
 
 def opclass(op):
-    return "rollback" if op[0] in ROLLBACK_OPS else op[0]
+    return "rollback" if op[0] in ROLLBACK_OPS else ("begin_nested" if op[0] == "begin_nested_nf" else op[0])
 
 
 def check_step(cfg, hist_, ms, op, max_born):
